@@ -5,11 +5,13 @@ package main
 
 import (
 	"bufio"
+	"context"
 	"encoding/json"
-	"fmt"
-	"os"
+	"errors"
 	"flag"
+	"fmt"
 	"io"
+	"os"
 	"sort"
 
 	"k8s.io/klog/v2"
@@ -35,6 +37,13 @@ type domain struct {
 var domains = map[string]domain{}
 
 func register(name string, d domain) { domains[name] = d }
+
+// ctxWithCause: a caller's context that is cancelled WITH A CAUSE of its own — ctx.Err() is context.Canceled as ever,
+// context.Cause(ctx) is the caller's private error, which the library must not report in place of the context error.
+func ctxWithCause() (context.Context, context.CancelFunc) {
+	c, cc := context.WithCancelCause(context.Background())
+	return c, func() { cc(errors.New("the caller gave up (custom cause)")) }
+}
 
 func main() {
 	if len(os.Args) < 2 {
